@@ -359,9 +359,12 @@ def _judge(case: dict[str, Any]) -> list[tuple[str, str]]:
     for a in case["assign"]:
         menv, lenv = bt.envs(case, a)
         try:
+            r3.STRICT_KINK = bool(deriv)
             mval = r3.eval_desc(d, menv)
         except ZeroDivisionError:
             return [("__discard__", "model division by zero")]
+        finally:
+            r3.STRICT_KINK = False
         want = r3.deriv(mval) if deriv else r3.plain(mval)
         for name, obj in routes:
             try:
